@@ -15,6 +15,7 @@ TECHNIQUE = (
     "tiny alphabets, plus all forced-alignment sources and all small element trees; oracle: deleting the sentinel "
     "strings from the output yields the target text"
 )
+TECHNIQUE += "; " + 'also: the annotator= hook and one-shot iterators as differential oracles, attribute / upper-case tag families, longer two-letter plain texts for shrinking replace blocks; a subset again under python -O'
 RULE = (
     "arbitrary: plain and source = all strings <= n over {x,y,<,' ',>} (source also None), all ordered span tuples of "
     "<= 2 spans (empty, touching, nested, overlapping, duplicate, unsorted; 3 spans for |plain| <= 3 in thorough) x 3 modes "
